@@ -37,9 +37,9 @@ DTSTEP = 0.25
 
 
 class RecModel(torch.nn.Module):
-    def __init__(self, n_in: int, lazy: bool, log: List[Any]) -> None:
+    def __init__(self, n_in: int, lazy: bool, log: List[Any], n_out: int = 1) -> None:
         super().__init__()
-        self.lin = torch.nn.LazyLinear(1, dtype=DT) if lazy else torch.nn.Linear(n_in, 1, dtype=DT)
+        self.lin = torch.nn.LazyLinear(n_out, dtype=DT) if lazy else torch.nn.Linear(n_in, n_out, dtype=DT)
         self.log = log
 
     def forward(self, x: torch.Tensor) -> torch.Tensor:
@@ -83,8 +83,16 @@ def build(cfg: Dict[str, Any], script, log, feats, criterion):
     stock = LoggingPrimary(copy.deepcopy(script), log, cost=1e-2, dt=DTSTEP, dtype=DT)
     deriv = EuropeanOption(stock, strike=1.0, maturity=(T_STEPS - 1) * DTSTEP)
     torch.manual_seed(1234)
-    model = RecModel(len(feats), cfg["lazy"], log)
+    H = 2 if cfg.get("hedge2") else 1
+    n_in = len(feats) + (H - 1 if "prev_hedge" in feats else 0)
+    model = RecModel(n_in, cfg["lazy"], log, n_out=H)
     hedger = Hedger(model, feats, criterion=criterion)
+    if cfg.get("hedge2"):      # an explicit hedge list: the underlier and a listed option on it (with its own cost rate)
+        other = EuropeanOption(stock, strike=1.25, maturity=(T_STEPS - 1) * DTSTEP)
+        other.list(lambda d: (d.ul().spot - 1.0) * 0.5 + 0.25, cost=5e-3)
+        hedger.verif_hedge = [stock, other]
+    else:
+        hedger.verif_hedge = None
     return stock, deriv, model, hedger
 
 
@@ -140,7 +148,7 @@ def run_fit(cfg: Dict[str, Any], seed: int, feats, criterion_fn) -> Dict[str, An
     else:
         if cfg["lazy"]:            # an instance needs materialised parameters: the documented placeholder forward
             deriv.simulate(n_paths=1)
-            hedger.compute_pl(deriv)
+            hedger.compute_pl(deriv, hedge=hedger.verif_hedge)
             slog.clear(); vers.clear(); stock.calls.clear()
             stock.pos = 0
         optimizer = BoundSGD(owned(hedger, model, cfg))
@@ -148,7 +156,7 @@ def run_fit(cfg: Dict[str, Any], seed: int, feats, criterion_fn) -> Dict[str, An
         hedger.eval()              # history: the hedger was used for pricing before this fit()
     vers.clear()
     ver()
-    history = hedger.fit(deriv, n_epochs=cfg["k"], n_paths=cfg["n"], n_times=cfg["ntimes"], optimizer=optimizer,
+    history = hedger.fit(deriv, hedge=hedger.verif_hedge, n_epochs=cfg["k"], n_paths=cfg["n"], n_times=cfg["ntimes"], optimizer=optimizer,
                          init_state=init_state, verbose=False, validation=cfg["validation"])
     events: List[Dict[str, Any]] = []
     for ev in slog:
@@ -180,7 +188,7 @@ def reference_loop(cfg: Dict[str, Any], script, feats, criterion_fn) -> Tuple[Li
     init_state = None if cfg["init"] == "default" else (1.25,)
     if cfg["lazy"]:
         deriv.simulate(n_paths=1)
-        hedger.compute_pl(deriv)
+        hedger.compute_pl(deriv, hedge=hedger.verif_hedge if not cfg["optclass"] else None) if not (cfg["optclass"] and cfg.get("hedge2")) else None
         if not cfg["optclass"]:
             stock.pos = 0
     opt = torch.optim.SGD(list(model.parameters()) if cfg["optclass"] else owned(hedger, model, cfg), lr=2.0 ** -3)
@@ -189,7 +197,7 @@ def reference_loop(cfg: Dict[str, Any], script, feats, criterion_fn) -> Tuple[Li
         hedger.train()
         opt.zero_grad()
         deriv.simulate(n_paths=cfg["n"], init_state=init_state)
-        loss = hedger.criterion(hedger.compute_portfolio(deriv), deriv.payoff())
+        loss = hedger.criterion(hedger.compute_portfolio(deriv, hedge=hedger.verif_hedge), deriv.payoff())
         loss.backward()
         opt.step()
         if cfg["validation"]:
@@ -198,7 +206,7 @@ def reference_loop(cfg: Dict[str, Any], script, feats, criterion_fn) -> Tuple[Li
                 vals = []
                 for _ in range(cfg["ntimes"]):
                     deriv.simulate(n_paths=cfg["n"], init_state=init_state)
-                    vals.append(hedger.criterion(hedger.compute_portfolio(deriv), deriv.payoff()))
+                    vals.append(hedger.criterion(hedger.compute_portfolio(deriv, hedge=hedger.verif_hedge), deriv.payoff()))
                 history.append(torch.stack(vals).mean(dim=0).item() if cfg["ntimes"] > 1 else vals[0].item())
     return [p.detach().clone() for p in hedger.parameters()], (history if cfg["validation"] else None)
 
@@ -264,12 +272,16 @@ def check(ctx: Ctx) -> None:
     setups = [(["moneyness", "time_to_maturity", "prev_hedge"], lambda: EntropicRiskMeasure(0.5)),
               (["moneyness", "time_to_maturity", "volatility"], lambda: ExpectedShortfall(0.5)),
               (["log_moneyness", "time_to_maturity", "volatility"], lambda: torch.nn.MSELoss())]
+    # an explicit hedge list with two instruments (materialised models; a lazy model with an optimiser CLASS is materialised
+    # by fit() itself on the default hedge, which is a different - documented - usage)
+    hedge_cfgs = [{"k": k, "n": 3, "ntimes": nt, "validation": v, "optclass": oc, "lazy": False, "init": ini, "pre_eval": False, "extra": False, "hedge2": True}
+                  for k in (1, 2) for nt in (1, 2) for v in (True, False) for oc in (True, False) for ini in ("default", "custom")]
     from pfhedge.nn.modules.loss import OCE
 
     def oce():
         return OCE(lambda z: z - z.square() / 8)
     traces = []
-    for i, cfg in enumerate(cfgs + extra_cfgs):
+    for i, cfg in enumerate(cfgs + extra_cfgs + hedge_cfgs):
         feats, crit = setups[i % len(setups)]
         if cfg["extra"]:
             crit = oce
